@@ -203,6 +203,10 @@ func build(scratch string, race bool) string {
 }
 
 func runWorker(bin string, job Job, scratch string, name string, timeout time.Duration) ([]map[string]json.RawMessage, string, error) {
+	return runWorkerEnv(bin, job, scratch, name, timeout, "GOMAXPROCS=2")
+}
+
+func runWorkerEnv(bin string, job Job, scratch string, name string, timeout time.Duration, extraEnv string) ([]map[string]json.RawMessage, string, error) {
 	job.Out = filepath.Join(scratch, name+".out.jsonl")
 	jf := filepath.Join(scratch, name+".job.json")
 	b, _ := json.Marshal(job)
@@ -210,7 +214,7 @@ func runWorker(bin string, job Job, scratch string, name string, timeout time.Du
 		return nil, "", err
 	}
 	cmd := exec.Command(bin, "-test.run", "^TestWorker$", "-test.timeout", "0")
-	cmd.Env = append(os.Environ(), "VERIF_JOB="+jf, "GOMAXPROCS=2", "GORACE=halt_on_error=0 log_path="+filepath.Join(scratch, name+".race"))
+	cmd.Env = append(os.Environ(), "VERIF_JOB="+jf, extraEnv, "GORACE=halt_on_error=0 log_path="+filepath.Join(scratch, name+".race"))
 	cmd.Dir = scratch
 	done := make(chan struct{})
 	var out []byte
@@ -285,6 +289,43 @@ func check(prop, tier string) int {
 		if f.Property == prop {
 			knownSigs = append(knownSigs, f.Signature)
 			knownHere = append(knownHere, f)
+		}
+	}
+
+	// regression tapes: minimised replays of everything ever found
+	var regressViol []RunResult
+	regressRuns := 0
+	if files, _ := filepath.Glob(filepath.Join(verifDir, "regress", prop, "*.json")); len(files) > 0 {
+		for _, f := range files {
+			raw, err := os.ReadFile(f)
+			if err != nil {
+				continue
+			}
+			var rf ReplayFile
+			if json.Unmarshal(raw, &rf) != nil {
+				continue
+			}
+			spec := rf.Spec
+			if spec.Replay == nil {
+				spec.Replay = []int{}
+			}
+			res, err := replaySpec(bin, scratch, spec)
+			if err != nil {
+				fmt.Fprintf(os.Stderr, "verifctl: regression replay %s failed: %v\n", f, err)
+				return 2
+			}
+			regressRuns++
+			if res.Outcome == "violation" {
+				known := false
+				for _, k := range knownSigs {
+					if k == res.Violations[0].Signature {
+						known = true
+					}
+				}
+				if !known {
+					regressViol = append(regressViol, res)
+				}
+			}
 		}
 	}
 
@@ -406,6 +447,8 @@ func check(prop, tier string) int {
 		return 2
 	}
 
+	viols = append(regressViol, viols...)
+	agg.Probes["regression_tapes_replayed"] = regressRuns
 	// distinct new violations
 	exit := 0
 	seen := map[string]bool{}
@@ -591,17 +634,75 @@ func replay(path string) int {
 	return 0
 }
 
-// determinism runs many seeds twice in separate processes at several
-// GOMAXPROCS values and compares event-log hashes (DESIGN.md §8.1).
+// determinism runs the same seeds in several OS processes at GOMAXPROCS 1, 4
+// and 16 and compares the event-log hashes (DESIGN.md §8.1).
 func determinism(prop string) int {
 	meta := props[prop]
+	n := 300
+	if v := os.Getenv("VERIF_DET_RUNS"); v != "" {
+		n, _ = strconv.Atoi(v)
+	}
 	scratch, err := os.MkdirTemp("", "verif-det-")
 	if err != nil {
 		fatal2("mktemp: %v", err)
 	}
 	defer os.RemoveAll(scratch)
 	bin := build(scratch, meta.Race)
-	_ = bin
-	fmt.Println("use scripts/determinism.sh")
+	procs := []string{"1", "1", "4", "4", "16", "16", "2", "8"}
+	type hl struct {
+		Idx     int    `json:"idx"`
+		Hash    uint64 `json:"hash"`
+		Steps   int    `json:"steps"`
+		Outcome string `json:"outcome"`
+		Err     string `json:"err"`
+	}
+	results := make([]map[int]hl, len(procs))
+	var wg sync.WaitGroup
+	for i, p := range procs {
+		wg.Add(1)
+		go func(i int, p string) {
+			defer wg.Done()
+			os.Setenv("VERIF_GOMAXPROCS_"+strconv.Itoa(i), p)
+			job := Job{Mode: "hashes", Prop: prop, Tier: "quick", SeedBase: seedFromEnv(), From: 0, Stride: 1, MaxRuns: n}
+			lines, out, err := runWorkerEnv(bin, job, scratch, "det"+strconv.Itoa(i), time.Hour, "GOMAXPROCS="+p)
+			if err != nil {
+				fmt.Fprintf(os.Stderr, "%v\n%s\n", err, tail(out, 30))
+			}
+			results[i] = map[int]hl{}
+			for _, m := range lines {
+				if kind(m) == "hash" {
+					raw, _ := json.Marshal(m)
+					var h hl
+					_ = json.Unmarshal(raw, &h)
+					results[i][h.Idx] = h
+				}
+			}
+		}(i, p)
+	}
+	wg.Wait()
+	bad := 0
+	for idx := 0; idx < n; idx++ {
+		ref, ok := results[0][idx]
+		if !ok {
+			fmt.Printf("run %d missing in process 0\n", idx)
+			bad++
+			continue
+		}
+		for i := 1; i < len(procs); i++ {
+			h, ok := results[i][idx]
+			if !ok || h.Hash != ref.Hash || h.Steps != ref.Steps {
+				bad++
+				fmt.Printf("run %d differs: GOMAXPROCS=%s %v vs GOMAXPROCS=%s %v\n", idx, procs[0], ref, procs[i], h)
+				break
+			}
+		}
+		if ref.Err != "" {
+			fmt.Printf("run %d harness error: %s\n", idx, ref.Err)
+		}
+	}
+	fmt.Printf("determinism %s: %d runs x %d processes (GOMAXPROCS %v): %d divergent\n", prop, n, len(procs), procs, bad)
+	if bad > 0 {
+		return 2
+	}
 	return 0
 }
